@@ -31,7 +31,7 @@ ASSUMPTIONS = [
     "an OverflowError for an integer that does not fit the C parameter type counts as a rejection, like IndexError",
     "bond types are the ten members of BondType",
 ]
-PROBES = ["oob-index-probed", "duplicate-index-array", "unsorted-negative-index-array", "strided-slice", "noncontiguous-mask",
+PROBES = ["oob-index-probed", "duplicate-index-array", "unsorted-negative-index-array", "strided-slice", "noncontiguous-mask", "read-only-index-array",
           "constructor-duplicates", "merge-different-counts", "views-compared"]
 
 NTYPES = 10
@@ -77,6 +77,13 @@ def model_index(m, idx):
 
 
 def np_index(idx):
+    a = _np_index(idx)
+    if idx.get("ro") and isinstance(a, np.ndarray):
+        a.flags.writeable = False  # e.g. what np.broadcast_to, np.frombuffer or a memory-mapped file hand out
+    return a
+
+
+def _np_index(idx):
     t = idx["t"]
     if t == "slice":
         return slice(*idx["v"])
@@ -125,7 +132,10 @@ def gen_index(rng, m, faulty):
         return {"t": "slice", "v": [start, stop, step]}
     if r < 0.5:
         v = [rng.random() < 0.6 for _ in range(n)]
-        return {"t": "ncmask" if rng.random() < 0.12 else "mask", "v": v}
+        t = "ncmask" if rng.random() < 0.12 else "mask"
+        if t == "mask" and rng.random() < 0.08:
+            return {"t": t, "v": v, "ro": True}
+        return {"t": t, "v": v}
     k = rng.randint(0, n)
     v = rng.sample(range(n), k) if n else []
     v = [x - n if rng.random() < 0.3 else x for x in v]
@@ -139,7 +149,10 @@ def gen_index(rng, m, faulty):
         dtypes += ["uint8", "uint32", "uint64", "int16", "int8"]
     elif all(-128 <= x < 128 for x in v):
         dtypes += ["int16", "int8"]
-    return {"t": "arr" if rng.random() < 0.85 or big else "list", "v": v, "dtype": rng.choice(dtypes) if not big else "int64"}
+    out = {"t": "arr" if rng.random() < 0.85 or big else "list", "v": v, "dtype": rng.choice(dtypes) if not big else "int64"}
+    if out["t"] == "arr" and rng.random() < 0.15:
+        out["ro"] = True
+    return out
 
 
 def generate(rng):
@@ -616,6 +629,8 @@ class Sim:
             detail = {"op": name, "got": exc_name(v), "msg": str(v)[:200]}
             if name == "index":
                 detail["index_type"] = op["idx"]["t"]
+                if op["idx"].get("ro"):
+                    detail["readonly"] = True
             sig = "op:raised"
             k = match_known(PROP, sig, detail)
             if k is not None:
@@ -660,6 +675,8 @@ class Sim:
                 st["probe:strided-slice"] += 1
             if idx["t"] == "ncmask":
                 st["probe:noncontiguous-mask"] += 1
+            if idx.get("ro"):
+                st["probe:read-only-index-array"] += 1
         if op["op"] == "new":
             pairs = [tuple(sorted((i % max(op["n"], 1), j % max(op["n"], 1)))) for i, j, _ in op["bonds"]]
             if len(set(pairs)) != len(pairs):
